@@ -13,13 +13,49 @@ readers.clear_caches()
 
 READER_OPENERS = ['path', 'path', 'preload', 'ccs1', 'ccs2', 'preload_ccs1', 'handle', 'blob', 'blob_preload']
 EMU_OPENERS = ['emulator', 'emulator', 'emulator_ccs1', 'emulator_blob', 'emulator_handle']
-# C07 does not quantify over chunk-cache sizes
-READER_OPENERS_C07 = ['path', 'path', 'preload', 'handle', 'blob', 'blob_preload']
-EMU_OPENERS_C07 = ['emulator', 'emulator_blob']
+# (C07: what a call may fetch is bounded by the same needed set whatever the chunk-cache size)
+READER_OPENERS_C07 = ['path', 'path', 'preload', 'handle', 'blob', 'blob_preload', 'ccs1', 'ccs2']
+EMU_OPENERS_C07 = ['emulator', 'emulator_blob', 'emulator_ccs1']
+
+
+def _trace_walk_call(rng, m, kind, visited):
+    """A trace read (whole, sample window, by coordinate; through the accessor for the emulator) that with
+    probability 1/2 returns to a trace whose neighbourhood an earlier call of the walk has read."""
+    ntr, n_s = m['tracecount'], m['n_s']
+    if visited and rng.random() < 0.5:
+        t = min(ntr - 1, max(0, rng.choice(visited) + rng.choice([0, 0, 1, -1, 2])))
+    else:
+        t = battery._idx(rng, ntr, 4)
+    visited.append(t)
+    if kind == 'emulator':
+        return ['em_trace', t]
+    if m['is_2d']:
+        return ['get_trace', t]
+    c = rng.random()
+    if c < 0.35:
+        return ['get_trace', t]
+    e, f = battery._rng_pair(rng, n_s, rng.choice([4, 16, 64, 128, 256]))
+    if c < 0.8:
+        return ['get_trace', t, e, f]
+    zs = m['zslices']
+    dz = zs[1] - zs[0] if n_s > 1 else 1.0
+    return ['get_trace_by_coord', t, float(zs[e]), float(zs[f]) if f < n_s else float(zs[-1] + dz)]
+
+
+def _header_state_call(rng, m, kind):
+    """One of the handful of call types that share a reader's lazily built header state (cached footer arrays and
+    their padding mode, population mask, header template)."""
+    ntr = m['tracecount']
+    i = rng.choice([ntr - 1, ntr // 2, rng.randrange(ntr), rng.randrange(ntr)])
+    f = rng.choice((m['stored'][:4] or [37]) + [37])
+    if kind == 'emulator':
+        return rng.choice([['em_attributes', f], ['em_header', i], ['em_trace', i], ['em_header', i]])
+    return rng.choice([['get_tracefield_values', f], ['gen_trace_header', i], ['gen_trace_header_all', i],
+                       ['get_trace', i], ['gen_trace_header', i]])
 
 
 def gen_history(rng, m, n_ops, reader_openers=READER_OPENERS, emu_openers=EMU_OPENERS, two_threads=False,
-                xarray_ok=False, sibling_ok=False, nudge=False):
+                xarray_ok=False, sibling_ok=False, nudge=False, flavour=None, faults=False):
     """ops: ['open', slot, opener] | ['close', slot] | ['call', slot, call].  Slots 0..3 readers,
     4 = the emulator, 5 = an xarray dataset, 6 = a reader on the *sibling* file (same geometry, other
     content; opener 'sib:<opener>').  With two_threads the slots are split between two caller
@@ -39,9 +75,16 @@ def gen_history(rng, m, n_ops, reader_openers=READER_OPENERS, emu_openers=EMU_OP
         ops.append(['open', slot, opener])
         open_slots[slot] = opener
 
+    visited = []
+
     def pick_call(slot):
         k = kind_of(slot)
         pal = palette[k]
+        if flavour == 'traces' and k != 'xarray' and rng.random() < 0.8:
+            # a walk over traces: many chunks, returns to earlier ones (per-chunk state that outlives an eviction)
+            return _trace_walk_call(rng, m, k, visited)
+        if flavour == 'headers' and k != 'xarray' and rng.random() < 0.85:
+            return _header_state_call(rng, m, k)
         if pal and rng.random() < 0.6:
             return rng.choice(pal)
         if k == 'xarray':
@@ -88,6 +131,17 @@ def gen_history(rng, m, n_ops, reader_openers=READER_OPENERS, emu_openers=EMU_OP
             c = _inner_box(rng, last[1])          # a box inside the previous one
         elif nudge and last is not None and kind_of(slot) == kind_of(last[0]) and rng.random() < 0.2:
             c = _nudge(rng, last[1])              # the previous call with one integer argument moved a little
+        if faults and not two_threads and kind_of(slot) != 'xarray' and rng.random() < (0.2 if flavour == 'headers' else 0.08):
+            # an earlier read that met a transient storage fault is an earlier read as well: ['fcall', slot, call,
+            # [k, kind, arg]] = the call with a one-shot fault on its k-th range request; its own outcome is not
+            # judged here (that is C17), what later reads return is
+            ops.append(['fcall', slot, c, [rng.choice([0, 0, 0, 1, 1, 2, 3, 5]),
+                                          rng.choice(['exception', 'short', 'empty', 'exception_readall', 'exception_seek']),
+                                          rng.randrange(8)]])
+            if rng.random() < 0.6:
+                ops.append(['call', slot, c])          # what a caller does after a transient failure: the same call again
+                last = (slot, c)
+            continue
         ops.append(['call', slot, c])
         last = (slot, c)
     if two_threads:
@@ -132,6 +186,8 @@ def _inner_box(rng, call):
 
 def op_thread(op):
     """Caller thread of an op of a two-thread history (appended as last element), else None."""
+    if op[0] == 'fcall':
+        return None
     n = 3 if op[0] == 'close' else 4
     return op[n - 1] if len(op) == n else None
 
@@ -302,7 +358,19 @@ def execute(data, ops, chooser, observer=None, step_cap=10 ** 7, sibling=None, p
                 if ent is None:
                     continue
                 obj, opener = ent
-                out = battery.outcome(lambda: battery.apply_call(obj, op[2]))
+                if op[0] == 'fcall':
+                    k, fkind, farg = op[3]
+                    if fkind == 'short':
+                        farg = 1 + 3 * farg
+                    fs.faults = storage.FaultPlan({k: (fkind, farg)})
+                    fs.faults.arm()
+                    try:
+                        out = battery.outcome(lambda: battery.apply_call(obj, op[2]))
+                    finally:
+                        fs.faults.disarm()
+                        fs.nfaults_fired = getattr(fs, 'nfaults_fired', 0) + len(fs.faults.fired)
+                else:
+                    out = battery.outcome(lambda: battery.apply_call(obj, op[2]))
             outcomes[i] = out
             if observer is not None:
                 me = core.current().cur.name
